@@ -89,14 +89,15 @@ def c12(c):
 
 CAPACITY = ("capacity", lambda c: ["-mode", "capacity", "-seed", c.seed, "-runs", 150 if c.quick else 1500])
 PROMPT = ("prompt", lambda c: ["-mode", "prompt", "-seed", c.seed, "-runs", 120 if c.quick else 1200])
+WIDE = ("wide", lambda c: ["-mode", "wide", "-seed", c.seed, "-runs", 8 if c.quick else 60, "-deadline", "4s"])
 PILEUP = ("pileup", lambda c: ["-mode", "pileup", "-seed", c.seed, "-runs", 250 if c.quick else 2500])
 
 REGISTRY = {
     "C01": generic("C01", ["q_dup"], ["q_dup", "t_ff4", "t_coe4"],
                    extra=[("fanin", lambda c: ["-mode", "fanin", "-seed", c.seed, "-runs", 6 if c.quick else 60, "-maxj", 600, "-maxn", 8])]),
     "C03": generic("C03", ["q_exit"], ["q_exit", "t_n3", "t_ctx2"], extra=[CAPACITY]),
-    "C05": generic("C05", ["q_exit", "q_can"], ["q_exit", "q_can", "t_all3", "t_ff4"], extra=[PILEUP]),
-    "C06": generic("C06", ["q_ff"], ["q_ff", "t_all3", "t_ff4"], extra=[PILEUP]),
+    "C05": generic("C05", ["q_exit", "q_can"], ["q_exit", "q_can", "t_all3", "t_ff4"], extra=[PILEUP, WIDE]),
+    "C06": generic("C06", ["q_ff"], ["q_ff", "t_all3", "t_ff4"], extra=[PILEUP, WIDE]),
     "C07": generic("C07", ["q_ff", "q_ctx2"], ["q_ff", "t_ff4", "t_can4", "t_ctx2"]),
     "C08": generic("C08", ["q_coe"], ["q_coe", "t_coe4", "t_all3"]),
     "C09": generic("C09", ["q_can", "q_ctx2"], ["q_can", "t_can4", "t_all3", "t_ctx2"], extra=[PROMPT]),
